@@ -270,6 +270,13 @@ func c20Worker(w *core.WorkerCtx) {
 		}
 		n := len(raw)
 		r.Count("file_bytes", n)
+		// the modification time of the file as it was saved: altered content of the same length is put in place with this
+		// time (what bit rot, a time-preserving copy or a rewrite within one clock tick leave behind), so that nothing but
+		// the content tells the altered file from the one that was read before
+		var savedAt time.Time
+		if fi, err := os.Stat(path); err == nil {
+			savedAt = fi.ModTime()
+		}
 
 		judge := func(kind string, pos int, desc string, data []byte, hh fileoperations.Helper, useKey []byte) {
 			r.Eval(1)
@@ -278,6 +285,11 @@ func c20Worker(w *core.WorkerCtx) {
 				if err := os.WriteFile(path, data, 0o644); err != nil {
 					r.Inconc("cannot write scratch wallet file: " + err.Error())
 					return
+				}
+				if len(data) == n && !savedAt.IsZero() {
+					if os.Chtimes(path, savedAt, savedAt) == nil {
+						r.Count("c20_altered_in_place_same_size_and_time", 1)
+					}
 				}
 			}
 			o := c20Read(hh)
@@ -379,7 +391,7 @@ func init() {
 	core.Register(&core.Check{
 		Spec: core.Spec{
 			Prop:        "C20",
-			Rule:        "For every generated wallet (16 and 32 byte keys alternating): save/read round trip through encrypted GOB and PEM must return identical keys and address; then the encrypted file is replaced by every truncation 0..len-1, by 4 different single byte changes at every offset, by zero extensions, and read with every 1-bit neighbour of the key and 64 PRNG keys: ReadWallet (and Decrypt directly) must return an error; a returned wallet or a panic (recover) is a violation. Exhaustive over offsets and key bits for each wallet. Besides: 2-8 wallets saved at the same moment (3 times each, GOB and PEM) in to different files of one directory, with a shared or with distinct keys, must each read back as the wallet that was saved in to that file. Every wallet returned by ReadWallet is kept and compared again with the saved keys after every later read (a value handed out must not change). Non-trivial = every corrupted/truncated/wrong-key case; distinct by (kind, offset, file region, key length). Several wallet files read one right after the other (no collection in between) must each still hold the keys saved in to them. Wrong keys include relatives of the right key: its zero extension, its doubling, its halves with a zero head or tail. PEM files of one directory are also named the way operators name them (names that differ only after the last dot).",
+			Rule:        "For every generated wallet (16 and 32 byte keys alternating): save/read round trip through encrypted GOB and PEM must return identical keys and address; then the encrypted file is replaced by every truncation 0..len-1, by 4 different single byte changes at every offset, by zero extensions, and read with every 1-bit neighbour of the key and 64 PRNG keys: ReadWallet (and Decrypt directly) must return an error; a returned wallet or a panic (recover) is a violation. Exhaustive over offsets and key bits for each wallet. Besides: 2-8 wallets saved at the same moment (3 times each, GOB and PEM) in to different files of one directory, with a shared or with distinct keys, must each read back as the wallet that was saved in to that file. Every wallet returned by ReadWallet is kept and compared again with the saved keys after every later read (a value handed out must not change). Non-trivial = every corrupted/truncated/wrong-key case; distinct by (kind, offset, file region, key length). Several wallet files read one right after the other (no collection in between) must each still hold the keys saved in to them. Wrong keys include relatives of the right key: its zero extension, its doubling, its halves with a zero head or tail. PEM files of one directory are also named the way operators name them (names that differ only after the last dot). Altered content of the same length is put in place with the modification time of the saved file, so that nothing but the content tells it from the file read before.",
 			Assumptions: []string{"AES-GCM tag forgery probability is negligible", "wallets come from wallet.New (crypto/rand), keys from the seeded PRNG"},
 			Exhaustive:  true,
 			MinEvals:    2000, MinNontriv: 500,
